@@ -5,7 +5,7 @@
  * with the public econf_mergeFiles. */
 #include "tree.h"
 
-static const char *UNI[T_MAXU] = { "10-a.conf", ".h.conf", "B.conf", "README", "a.conf", "9-b.conf", ".conf", "x.conf.bak" };   /* the dot file is among the first four (quick universe) */
+static const char *UNI[T_MAXU] = { "10-a.conf", ".h.conf", "B.conf", "READMEconf", "a.conf", "9-b.conf", ".conf", "x.conf.bak" };   /* the dot file is among the first four (quick universe); READMEconf ends in the letters of the suffix but not in ".conf" */
 typedef struct { int layers; int sfx; int dirs; int cds; int hollow; } shape_t;
 /* sfx: 0 "conf", 1 ".conf", 2 "" ; dirs: 0 both, 1 NULL first, 2 "" first, 3 NULL second, 4 "" second ; cds: 0 default, 1 econf_set_conf_dirs */
 static shape_t SH[64]; static int NSH;
